@@ -529,6 +529,10 @@ def cases(seed, tier):
             k += 1
             out.append({"group": "bad", "functional": name, "n": 3, "seed": sub_seed(seed, "c18s", k)})
             k += 1
+    # histories: ONE bck_options dict object handed to successive calls with different methods: each call must behave as with a fresh dict
+    for name in PROBLEMS:
+        for r in range(2 if tier == "quick" else 8):
+            out.append({"group": "shareddict", "functional": name, "n": 4 if r % 2 == 0 else 6, "seed": sub_seed(seed, "c18sd", name, r)})
     for cls in ("Interp1D", "SQuad"):
         for r in range(6 if tier == "quick" else 30):
             out.append({"group": "classes", "functional": cls, "seed": sub_seed(seed, "c18s", k)})
@@ -782,9 +786,60 @@ def run_classes(desc, obs):
     obs.nontrivial = len(seen) >= 2
 
 
+def run_shareddict(desc, obs):
+    P0 = PROBLEMS[desc["functional"]]
+    rng = random.Random(desc["seed"])
+    methods = [m for m in P0.builtins if m not in ("mhcustom",)]
+    if len(methods) < 2:
+        methods = methods * 2
+    seq = [rng.choice(methods) for _ in range(3)]
+    base = {"rtol": 1e-11, "atol": 1e-13} if P0.name != "solve_ivp" else {"rtol": 1e-9, "atol": 1e-10}
+    shared = dict(base)
+
+    def one(method, bck):
+        P = P0(desc["seed"], desc["n"])
+        lv = P.leaves()
+        opts = dict(P.ref_opts) if method == P.reference else ({"nsamples": 30, "lb": -6.0, "ub": 6.0} if method == "_dummy1d" else {})
+        with WarnLog():
+            o = P.call(lv, method, opts, bck)
+            go = P.gauge(o)
+            L = sum((x * x).sum() for x in go)
+            torch.manual_seed(desc["seed"] + 3)
+            g = torch.autograd.grad(L, list(lv.values()), allow_unused=True)
+        return [x.detach() for x in o], [torch.zeros_like(l) if gi is None else gi.detach() for gi, l in zip(g, lv.values())]
+    ncmp = 0
+    for i, m in enumerate(seq):
+        mech = "%s:%s_after_%s" % (P0.name, m, seq[i - 1] if i else "nothing")
+        try:
+            o_s, g_s = one(m, shared)
+            o_f, g_f = one(m, dict(base))
+        except Exception as e:
+            if _monitor_only(e):
+                raise
+            obs.exc_violation("shareddict:" + mech, e)
+            continue
+        same_o = all(a.shape == b.shape and torch.equal(a, b) for a, b in zip(o_s, o_f))
+        gerr = max(float((a - b).abs().max()) for a, b in zip(g_s, g_f))
+        gsc = max(1.0, max(float(b.abs().max()) for b in g_f))
+        obs.check(same_o, "shareddict_value:" + mech, "result with a bck_options dict used by earlier calls differs from the result with a fresh dict")
+        obs.check(gerr <= 1e-10 * gsc, "shareddict_grad:" + mech,
+                  "gradient with a bck_options dict used by earlier calls (%s) differs from the one with a fresh dict by %.3e" % (seq[:i], gerr))
+        ncmp += 1
+    obs.count("shared_dict_calls_compared", ncmp)
+    obs.nontrivial = ncmp >= 2
+
+
+def _monitor_only(e):
+    return isinstance(e, HarnessBug)
+
+
 def run_case(desc):
     obs = Obs(desc)
     g = desc["group"]
+    if g == "shareddict":
+        run_shareddict(desc, obs)
+        obs.count("group_shareddict")
+        return obs.result()
     if g == "custom":
         run_custom(desc, obs)
     elif g == "names":
